@@ -53,6 +53,10 @@ def run(pid, tier, seed, jobs=None, only=None):
                 return not mk or all(f for _, f in mk) or not any(f for _, f in mk)
             specs = [s_ for s_ in specs if uniform(s_)]
             extra = ['quick tier: match shapes explored under the two uniform marker-type assignments only (all restricted / none)']
+        if pid == 'C01' and not only:
+            # bounded model checking from the empty book along accepted-request templates (independent of Inv)
+            specs = specs + ST.history_templates(tier)
+            extra = extra + ['history templates: every denomination an ordinary coin; depth <= %d accepted requests from the empty book' % max(len(h['steps']) for h in ST.history_templates(tier))]
         return R.run_check(pid, tier, seed, specs, jobs=jobs, extra_assumptions=extra)
     if pid == 'C06':
         # exits from an arbitrary Inv book + preservation of Inv by every request kind (reduced match shapes: Inv does not depend on the mechanism)
